@@ -224,6 +224,12 @@ def run_session(w, sc, mon):
     for i in range(nvar):
         client_variant("other_password", i, sc["cuser"], other_cred(rnd, sc["pw"]), B, salt)
         client_variant("other_username", i, other_cred(rnd, sc["user"]), sc["cpw"], B, salt)
+    # blanks are ordinary characters of a credential: one more or one fewer at either end is another credential
+    for nm, cu_, cp_ in (("pw_trailing_blank", sc["cuser"], sc["cpw"] + " "), ("user_trailing_blank", sc["cuser"] + " ", sc["cpw"]),
+                         ("pw_leading_blank", sc["cuser"], " " + sc["cpw"]), ("pw_trailing_blank_dropped", sc["cuser"], sc["cpw"].rstrip(" ")),
+                         ("user_trailing_blank_dropped", sc["cuser"].rstrip(" "), sc["cpw"])):
+        if 1 <= len(cu_) <= 16 and 1 <= len(cp_) <= 16 and (M.norm(cu_), M.norm(cp_)) != (un, pn):
+            client_variant("other_credential_blank", nm, cu_, cp_, B, salt)
     if M.norm(sc["user"]) != M.norm(sc["pw"]):
         client_variant("swapped_user_pass", 0, sc["cpw"], sc["cuser"], B, salt)
     # case-only change: must still be accepted
